@@ -135,6 +135,17 @@ func run(e *hx.Env) *hx.Report {
 		rep.Case(strings.Join(dh[name], "\n"), r.Nontriv)
 		rep.Hit("history:drift-systematic")
 	}
+	// ---- systematic: pods whose name_namespace strings contain one another (what finds rules by text must not mix them)
+	sh := policy.SubstringHistories()
+	for _, name := range hx.SortedKeys(sh) {
+		r, err := runOps(e, rep, name, sh[name])
+		if err != nil {
+			rep.Disagree = append(rep.Disagree, hx.Disagreement{Where: "substring-history", Model: err.Error()})
+			continue
+		}
+		rep.Case(strings.Join(sh[name], "\n"), r.Nontriv)
+		rep.Hit("history:substring-names-systematic")
+	}
 	n := e.N(120, 4000)
 	for i := 0; i < n; i++ {
 		ops := policy.GenHistory(e.Rng)
